@@ -38,6 +38,12 @@ Theorem C19_is_through_err_field : forall id e s, walkable e = true ->
   errors_is (ELib id e) (ESent s) = res_of_bool (occurs_sent s e).
 Proof. exact is_through_err_field. Qed.
 
+(* both together: %w / ConnectionError / RequestTimeoutError wrappers on top, then a library wrapper
+   with library, %w and foreign Err-field wrappers below, any depth: exactly the sentinel inside *)
+Theorem C19_is_ext_chain : forall e s, ext_chain e = true ->
+  errors_is e (ESent s) = res_of_bool (occurs_sent s e).
+Proof. exact is_ext_chain. Qed.
+
 (* the first clause for everything that can be built from the real constructors and the real
    failing calls, nested to any depth (the language the correspondence check draws from): errors.Is
    reports exactly the one sentinel at the bottom — the cause handed in, or the documented sentinel
@@ -127,6 +133,7 @@ Print Assumptions C19_method_is_iff_in_chain.
 Print Assumptions C19_is_never_spurious.
 Print Assumptions C19_is_any_target.
 Print Assumptions C19_is_through_err_field.
+Print Assumptions C19_is_ext_chain.
 Print Assumptions C19_built_is_iff_leaf.
 Print Assumptions C19_eof_unwrapped.
 Print Assumptions C19_eof_only_bare.
